@@ -1,8 +1,10 @@
 #!/bin/sh
-# Run every registered check of a tier sequentially; print one summary line per property.
+# Run every registered check of a tier sequentially (or only the properties given after the tier); one summary line each.
 tier="${1:-quick}"
+[ $# -gt 0 ] && shift
+props="${*:-C01 C02 C03 C04 C05 C06 C07 C08 C09 C10 C11 C12 C13 C14 C15 C16 C17 C18 C19 C20}"
 cd /verif
-for p in C01 C02 C03 C04 C05 C06 C07 C08 C09 C10 C11 C12 C13 C14 C15 C16 C17 C18 C19 C20; do
+for p in $props; do
   start=$(date +%s)
   ./vf check $p --tier $tier > /tmp/run_all_$p.log 2>&1
   rc=$?
